@@ -27,6 +27,12 @@ for f in sorted(os.listdir("/verif/mutants")):
     if m: items.append((f, f"/verif/mutants/{f}", "C" + m.group(1)))
 if len(sys.argv) > 1:
     items = [i for i in items if any(a in i[0] for a in sys.argv[1:])]
+# REGRESS_OUT: write results there after every item (a run that is stopped early keeps what it has);
+# REGRESS_SKIP: a log of an earlier run whose items are not repeated
+OUT = os.environ.get("REGRESS_OUT", "/verif/seeded/REGRESSION.json")
+if os.environ.get("REGRESS_SKIP"):
+    done = {l.split()[0] for l in open(os.environ["REGRESS_SKIP"]) if " exit 1 " in l}
+    items = [i for i in items if i[0] not in done]
 vs = "/tmp/regress-verif"
 sh(f"git -C /verif worktree remove --force {vs}"); sh(f"git -C /verif worktree add -q --detach {vs} HEAD")
 res = {}
@@ -43,8 +49,10 @@ try:
         res[name] = dict(owner=owner, exit=rc, violations=viol, wall_s=round(time.time() - t0, 1))
         print(name, owner, "exit", rc, "violations", viol, f"{time.time()-t0:.0f}s", flush=True)
         sh(f"git -C /repo worktree remove --force {wt}")
+        if OUT != "/verif/seeded/REGRESSION.json":
+            json.dump(dict(results=res, partial=True), open(OUT, "w"), indent=1)
 finally:
     sh(f"git -C /verif worktree remove --force {vs}"); sh("git -C /repo worktree prune")
 missed = [n for n, r in res.items() if not (r.get("exit") == 1 and r.get("violations", 0) > 0)]
-json.dump(dict(results=res, missed=missed), open("/verif/seeded/REGRESSION.json", "w"), indent=1)
+json.dump(dict(results=res, missed=missed), open(OUT, "w"), indent=1)
 print(f"{len(res)} changes, {len(res)-len(missed)} detected by the owning check, missed: {missed}")
